@@ -295,7 +295,10 @@ def oracle(spec):
             for rev in (False, True):
                 bnd = bnd_i if rev else bnd_f
                 tol = Fraction(1e-9) * Fraction(max(bnd, 1.0) * pm * 4)
-                got = ct(shcopy(p), from_range=ra, reverse=rev, treat_input_as_vector=av)
+                # the flags as a caller's computation would produce them half of the time: NumPy booleans (`mask[i]`,
+                # `a > b`), which are the same truth values
+                npb = (lambda x: np.bool_(x)) if (rng.random() < 0.5) else (lambda x: x)
+                got = ct(shcopy(p), from_range=ra, reverse=npb(rev), treat_input_as_vector=npb(av))
                 want = S.fold3(sel, fpt(p, 0)[:3], 0 if av else 1, rev)
                 g = [Fraction(float(x)) for x in got]
                 if np.shape(got) != (3,) or any(abs(a - b) > tol for a, b in zip(g, want)):
@@ -308,6 +311,18 @@ def oracle(spec):
                 if any(abs(Fraction(float(a)) - Fraction(float(b))) > tolb for a, b in zip(back, p)):
                     bad(key("roundtrip/%s%s%s" % ("reverse-first" if rev else "forward-first", "-vector" if av else "", tag)),
                         "range %s: %s went to %s and came back as %s" % (r, p.tolist(), np.asarray(got).tolist(), np.asarray(back).tolist()))
+                # the matrix the caller is handed is the caller's: editing it must not change what the composite does
+                try:
+                    Mh = ct.transform_matrix_for(from_range=ra, reverse=rev)
+                    if isinstance(Mh, np.ndarray) and Mh.flags.writeable:
+                        Mh[...] = 77.0
+                        again = ct(shcopy(p), from_range=ra, reverse=rev, treat_input_as_vector=av)
+                        if np.shape(again) != np.shape(got) or not np.array_equal(np.asarray(again), np.asarray(got)):
+                            bad(key("call/after-caller-edited-matrix" + tag),
+                                "range %s reverse=%s: after the caller edited the array returned by transform_matrix_for, "
+                                "ct(%s) changed from %s to %s" % (r, rev, p.tolist(), np.asarray(got).tolist(), np.asarray(again).tolist()))
+                except Exception:
+                    pass
             # vector mode ignores translations: same answer from the history without its translate steps
             if av:
                 lin = [a for a, st in zip(sel, sel_steps) if not S.is_translation(st)]
